@@ -24,6 +24,16 @@ from vlib.core import strlit
 from vlib.py2v import Untranslatable, dotted
 
 
+def fmethod(tree, cls, name):
+    """the method, normalised (docstrings, annotations, logging statements, typing.cast, pass stripped; names kept):
+    edits that cannot change behaviour do not reach the matchers below"""
+    return py2v.normalize_func(py2v.find_method(tree, cls, name), rename_locals=False)
+
+
+def fhash(f, src=None):
+    return py2v.norm_hash(f, rename_locals=False)
+
+
 # ---- expressions ---------------------------------------------------------------------------------
 
 def truthy(term: str, ty: str) -> str:
@@ -43,8 +53,9 @@ def truthy(term: str, ty: str) -> str:
 class Sym:
     """env: python (dotted) name -> (coq term, type); types: optstr str bool optbool none"""
 
-    def __init__(self, path_exists_term: str | None = None):
+    def __init__(self, path_exists_term: str | None = None, calls: dict | None = None):
         self.path_exists_term = path_exists_term
+        self.calls = calls or {}      # dotted callee -> ([dotted argument names], coq term, type)
         self.n = 0
 
     def fresh(self, base: str) -> str:
@@ -75,6 +86,11 @@ class Sym:
             raise Untranslatable(f"unknown name {d}")
         if self.path_exists_term and self.is_path_exists(n):
             return self.path_exists_term, "bool"
+        if isinstance(n, ast.Call) and dotted(n.func) in self.calls:
+            argnames, term, ty = self.calls[dotted(n.func)]
+            if [dotted(a) for a in n.args] == argnames and not n.keywords:
+                return term, ty
+            raise Untranslatable(f"call of {dotted(n.func)} with other arguments")
         if isinstance(n, ast.Call) and dotted(n.func) == "str" and len(n.args) == 1 and not n.keywords:
             a, ta = self.e(n.args[0], env)
             if ta == "optstr":
@@ -249,6 +265,9 @@ def _is_to_table(n, var: str) -> bool:
 # ---- saveAsTable -----------------------------------------------------------------------------------
 
 class SatHandler:
+    def __init__(self, unsupported_params=()):
+        self.unsupported_params = set(unsupported_params)
+
     def ret(self, node, env, sym):
         # return self.insertInto(name)
         if isinstance(node, ast.Call) and dotted(node.func) == "self.insertInto":
@@ -274,10 +293,12 @@ class SatHandler:
         raise Untranslatable("saveAsTable: falls off the end")
 
     def other(self, s, env, sym):
-        # if format is not None: raise NotImplementedError(...)      (format=None is the domain)
-        if isinstance(s, ast.If) and not s.orelse and isinstance(s.test, ast.Compare) and dotted(s.test.left) == "format" \
+        # if <optional parameter> is not None: raise NotImplementedError(...)      (the parameter left at None is the domain)
+        if isinstance(s, ast.If) and not s.orelse and isinstance(s.test, ast.Compare) \
+                and dotted(s.test.left) in self.unsupported_params \
                 and isinstance(s.test.ops[0], ast.IsNot) and isinstance(s.test.comparators[0], ast.Constant) \
-                and s.test.comparators[0].value is None and len(s.body) == 1 and isinstance(s.body[0], ast.Raise):
+                and s.test.comparators[0].value is None and len(s.body) == 1 and isinstance(s.body[0], ast.Raise) \
+                and isinstance(s.body[0].exc, ast.Call) and dotted(s.body[0].exc.func) == "NotImplementedError":
             return env
         if isinstance(s, ast.Assign) and len(s.targets) == 1 and isinstance(s.targets[0], ast.Name):
             t, v = s.targets[0].id, s.value
@@ -319,14 +340,31 @@ class SatHandler:
 
 
 def sat_plan(tree, src):
-    f = py2v.find_method(tree, "_BaseDataFrameWriter", "saveAsTable")
-    args = [a.arg for a in f.args.args]
-    if args != ["self", "name", "format", "mode"]:
+    f = fmethod(tree, "_BaseDataFrameWriter", "saveAsTable")
+    a = f.args
+    if a.vararg or a.posonlyargs or a.kwonlyargs:
+        raise Untranslatable("saveAsTable: *args / positional-only / keyword-only parameters")
+    args = [x.arg for x in a.args]
+    if args[:2] != ["self", "name"] or "mode" not in args[2:]:
         raise Untranslatable(f"saveAsTable parameters {args}")
-    sym = Sym()
-    env = {"mode": ("arg_mode", "optstr"), "self._mode": ("self_mode", "optstr"), "name": ("name", "tname")}
-    term = sym.block(f.body, env, SatHandler())
-    return term, py2v.src_hash(f, src)
+    # every parameter after `name` must default to None; those other than `mode` may only occur as
+    # `if <p> is not None: raise NotImplementedError(...)` (PySpark-compatible keywords that are not supported): with the
+    # default they cannot change what the call does
+    if len(a.defaults) != len(args) - 2 or not all(isinstance(d, ast.Constant) and d.value is None for d in a.defaults):
+        raise Untranslatable("saveAsTable: a parameter after `name` does not default to None")
+    extra = [p for p in args[2:] if p != "mode"]
+    for p in extra:
+        uses = [n for n in ast.walk(f) if isinstance(n, ast.Name) and n.id == p]
+        guards = [st for st in f.body if isinstance(st, ast.If) and isinstance(st.test, ast.Compare) and dotted(st.test.left) == p]
+        if len(uses) != len(guards):
+            raise Untranslatable(f"saveAsTable: parameter {p} is used outside its NotImplementedError guard")
+    if a.kwarg and any(isinstance(n, ast.Name) and n.id == a.kwarg.arg for n in ast.walk(f)):
+        raise Untranslatable("saveAsTable: **options are used")
+    sym = Sym(calls={"self._session.catalog.tableExists": (["name"], "table_exists", "bool")})
+    env = {"mode": ("arg_mode", "optstr"), "self._mode": ("self_mode", "optstr"), "name": ("name", "tname"),
+           "self._session._has_connection": ("true", "bool")}      # the check's domain: a session with a connection
+    term = sym.block(f.body, env, SatHandler(extra))
+    return term, fhash(f)
 
 
 # ---- _validate_mode / _write -------------------------------------------------------------------------
@@ -354,13 +392,13 @@ class ValidateHandler:
 
 
 def validate_mode(tree, src):
-    f = py2v.find_method(tree, "_BaseDataFrameWriter", "_validate_mode")
+    f = fmethod(tree, "_BaseDataFrameWriter", "_validate_mode")
     args = [a.arg for a in f.args.args]
     if args != ["self", "path", "mode"]:
         raise Untranslatable(f"_validate_mode parameters {args}")
     sym = Sym(path_exists_term="path_exists")
     term = sym.block(f.body, {"mode": ("mode0", "optstr")}, ValidateHandler())
-    return term, py2v.src_hash(f, src)
+    return term, fhash(f)
 
 
 class WriteHandler:
@@ -413,7 +451,7 @@ class WriteHandler:
 
 
 def after_validate(tree, src):
-    f = py2v.find_method(tree, "DuckDBDataFrameWriter", "_write")
+    f = fmethod(tree, "DuckDBDataFrameWriter", "_write")
     args = [a.arg for a in f.args.args]
     if args != ["self", "path", "mode"] or f.args.kwarg is None:
         raise Untranslatable(f"DuckDB _write parameters {args}")
@@ -427,7 +465,60 @@ def after_validate(tree, src):
         raise Untranslatable("_write: first statement is not `mode, skip = self._validate_mode(path, mode)`")
     sym = Sym()
     term = sym.block(body[1:], {"mode": ("mode", "str"), "skip": ("skip", "bool")}, WriteHandler())
-    return term, py2v.src_hash(f, src)
+    return term, fhash(f)
+
+
+def cleans_new_path_debris(tree) -> bool:
+    """does DuckDB's _write remove what a failed COPY left at a path that did not exist before?  Recognised shapes:
+    no try around the COPY (False), or exactly
+        existed = pathlib.Path(path).exists()
+        try: <the COPY>
+        except Exception:
+            if not existed [and pathlib.Path(path).is_file()]: pathlib.Path(path).unlink()
+            raise
+    (True).  Anything else around the COPY is not translated."""
+    f = fmethod(tree, "DuckDBDataFrameWriter", "_write")
+    tries = [n for n in ast.walk(f) if isinstance(n, ast.Try)]
+    if not tries:
+        return False
+    if len(tries) != 1:
+        raise Untranslatable("_write: more than one try")
+    t = tries[0]
+
+    def is_path(n, attr):
+        return (isinstance(n, ast.Call) and not n.args and isinstance(n.func, ast.Attribute) and n.func.attr == attr
+                and isinstance(n.func.value, ast.Call) and dotted(n.func.value.func) in ("pathlib.Path", "Path")
+                and [dotted(a) for a in n.func.value.args] == ["path"])
+    ok_body = (len(t.body) == 1 and isinstance(t.body[0], ast.Expr) and isinstance(t.body[0].value, ast.Call)
+               and dotted(t.body[0].value.func) == "self._df.session._collect"
+               and len(t.body[0].value.args) == 1 and isinstance(t.body[0].value.args[0], ast.JoinedStr))
+    if not ok_body or t.orelse or t.finalbody or len(t.handlers) != 1:
+        raise Untranslatable("_write: try around the COPY has another shape")
+    h = t.handlers[0]
+    if dotted(h.type) not in ("Exception", "BaseException") or len(h.body) != 2:
+        raise Untranslatable("_write: except clause has another shape")
+    guard, rer = h.body
+    if not (isinstance(rer, ast.Raise) and rer.exc is None):
+        raise Untranslatable("_write: the exception is not re-raised")
+    test = guard.test if isinstance(guard, ast.If) else None
+    conj = test.values if isinstance(test, ast.BoolOp) and isinstance(test.op, ast.And) else [test]
+    ok_guard = (isinstance(guard, ast.If) and not guard.orelse and len(guard.body) == 1
+                and isinstance(conj[0], ast.UnaryOp) and isinstance(conj[0].op, ast.Not) and dotted(conj[0].operand) == "existed"
+                and all(is_path(c, "is_file") or is_path(c, "exists") for c in conj[1:])
+                and isinstance(guard.body[0], ast.Expr) and is_path(guard.body[0].value, "unlink"))
+    if not ok_guard:
+        raise Untranslatable("_write: cleanup is not `if not existed: Path(path).unlink()`")
+    assigns = [n for n in ast.walk(f) if isinstance(n, ast.Assign) and any(dotted(x) == "existed" for x in n.targets)]
+    if len(assigns) != 1 or not is_path(assigns[0].value, "exists"):
+        raise Untranslatable("_write: `existed` is not pathlib.Path(path).exists() taken once")
+    # ... and it is taken before the COPY, in the same block as the try
+    for n in ast.walk(f):
+        for fld in ("body", "orelse"):
+            blk = getattr(n, fld, None)
+            if isinstance(blk, list) and t in blk:
+                if assigns[0] in blk and blk.index(assigns[0]) < blk.index(t):
+                    return True
+    raise Untranslatable("_write: `existed` is not taken right before the COPY")
 
 
 # ---- csv / json / parquet: which mode reaches _write -----------------------------------------------------
@@ -435,7 +526,7 @@ def after_validate(tree, src):
 def path_mode(tree, src):
     out, hashes = {}, {}
     for m in ("csv", "json", "parquet"):
-        f = py2v.find_method(tree, "_BaseDataFrameWriter", m)
+        f = fmethod(tree, "_BaseDataFrameWriter", m)
         params = [a.arg for a in f.args.args]
         if params[:3] != ["self", "path", "mode"]:
             raise Untranslatable(f"{m}: parameters {params[:3]}")
@@ -459,14 +550,14 @@ def path_mode(tree, src):
         if ty != "optstr":
             raise Untranslatable(f"{m}: mode= expression has type {ty}")
         out[m] = term
-        hashes[m] = py2v.src_hash(calls[0], src)
+        hashes[m] = fhash(f)
     return out, hashes
 
 
 # ---- shape facts -----------------------------------------------------------------------------------------
 
 def mode_setter(tree):
-    f = py2v.find_method(tree, "_BaseDataFrameWriter", "mode")
+    f = fmethod(tree, "_BaseDataFrameWriter", "mode")
     body = [s for s in f.body if not (isinstance(s, ast.Expr) and isinstance(s.value, ast.Constant))]
     params = [a.arg for a in f.args.args]
     ok = (len(body) == 1 and isinstance(body[0], ast.Return) and isinstance(body[0].value, ast.Call)
@@ -475,7 +566,7 @@ def mode_setter(tree):
           and dotted(_kw(body[0].value)["_mode"]) == params[1])
     if not ok:
         raise Untranslatable("mode(): no longer `return self.copy(_mode=<argument>)`")
-    init = py2v.find_method(tree, "_BaseDataFrameWriter", "__init__")
+    init = fmethod(tree, "_BaseDataFrameWriter", "__init__")
     if not any(isinstance(s, ast.Assign) and dotted(s.targets[0]) == "self._mode" and dotted(s.value) == "mode"
                for s in init.body):
         raise Untranslatable("__init__: self._mode = mode not found")
@@ -483,7 +574,7 @@ def mode_setter(tree):
 
 
 def insert_into(tree, src):
-    f = py2v.find_method(tree, "_BaseDataFrameWriter", "insertInto")
+    f = fmethod(tree, "_BaseDataFrameWriter", "insertInto")
     body = [s for s in f.body if not isinstance(s, (ast.ImportFrom, ast.Import))
             and not (isinstance(s, ast.Expr) and isinstance(s.value, ast.Constant))]
     if len(body) != 6:
@@ -557,11 +648,11 @@ def insert_into(tree, src):
     if not (isinstance(s5, ast.Return) and isinstance(s5.value, ast.Call) and dotted(s5.value.func) == "self.copy"
             and dotted(_kw(s5.value).get("_df")) == "df"):
         raise Untranslatable("insertInto: return changed")
-    return source, py2v.src_hash(f, src)
+    return source, fhash(f)
 
 
 def add_table_policy(tree, src):
-    f = py2v.find_method(tree, "_BaseCatalog", "add_table")
+    f = fmethod(tree, "_BaseCatalog", "add_table")
     body = [s for s in f.body if not (isinstance(s, ast.Expr) and isinstance(s.value, ast.Constant))]
     if not (isinstance(body[0], ast.Assign) and dotted(body[0].targets[0]) == "table"
             and isinstance(body[0].value, ast.Call) and dotted(body[0].value.func) == "self.ensure_table"):
@@ -601,11 +692,11 @@ def add_table_policy(tree, src):
     # the columns of a new entry come from the engine
     if not any(isinstance(n, ast.Call) and dotted(n.func) == "self.get_columns" for n in ast.walk(f)):
         raise Untranslatable("add_table: columns no longer fetched with self.get_columns(table)")
-    return keep, py2v.src_hash(f, src)
+    return keep, fhash(f)
 
 
 def reader_table(tree, src):
-    f = py2v.find_method(tree, "_BaseDataFrameReader", "table")
+    f = fmethod(tree, "_BaseDataFrameReader", "table")
     calls = [dotted(n.func) for n in ast.walk(f) if isinstance(n, ast.Call)]
     need = ["self.session.catalog.add_table", "self.session.catalog.get_columns_from_schema", "self.session._create_table"]
     for c in need:
@@ -618,11 +709,11 @@ def reader_table(tree, src):
            and n.args and isinstance(n.args[0], ast.Starred) and dotted(n.args[0].value) == "columns"]
     if len(sel) != 1:
         raise Untranslatable("reader.table: SELECT of the cached columns changed")
-    return py2v.src_hash(f, src)
+    return fhash(f)
 
 
 def get_expressions_containers(tree, src):
-    f = py2v.find_method(tree, "BaseDataFrame", "_get_expressions")
+    f = fmethod(tree, "BaseDataFrame", "_get_expressions")
     found = {"Create": False, "Insert": False}
     for n in ast.walk(f):
         if isinstance(n, ast.If) and isinstance(n.test, ast.Compare) and dotted(n.test.left) == "expression_type" \
@@ -637,7 +728,7 @@ def get_expressions_containers(tree, src):
                 found[kind] = True
     if not all(found.values()):
         raise Untranslatable(f"_get_expressions: container branches changed: {found}")
-    return py2v.src_hash(f, src)
+    return fhash(f)
 
 
 def generate(repo: str):
@@ -648,6 +739,7 @@ def generate(repo: str):
     sat, sat_h = sat_plan(rw_tree, rw_src)
     val, val_h = validate_mode(rw_tree, rw_src)
     aft, aft_h = after_validate(dk_tree, dk_src)
+    cleans = cleans_new_path_debris(dk_tree)
     pm, pm_h = path_mode(rw_tree, rw_src)
     mode_setter(rw_tree)
     byname, ins_h = insert_into(rw_tree, rw_src)
@@ -657,18 +749,21 @@ def generate(repo: str):
     L = ["(* GENERATED from /repo on every run by translate/c14_facts.py -- do not edit *)",
          "From SF Require Import Base.Val C14.Writer.",
          "Open Scope string_scope.",
-         f"Definition sat_plan (arg_mode self_mode : option string) : sat_action :=\n  {sat}.",
+         f"Definition sat_plan (table_exists : bool) (arg_mode self_mode : option string) : sat_action :=\n  {sat}.",
          f"Definition validate_mode (path_exists : bool) (mode0 : option string) : vres :=\n  {val}.",
          f"Definition after_validate (mode : string) (skip : bool) : wact :=\n  {aft}.",
          "Definition path_mode (f : fmt) (arg_mode self_mode : option string) : option string :=\n"
          f"  match f with FCsv => {pm['csv']} | FJson => {pm['json']} | FParquet => {pm['parquet']} end.",
          f"Definition add_if_absent : bool := {'true' if keep else 'false'}.",
          f"Definition byname_source : byname_src := {byname}.",
-         "Definition gen_cfg : cfg := mkCfg sat_plan validate_mode after_validate path_mode add_if_absent byname_source."]
+         f"Definition cleans_new_path_debris : bool := {'true' if cleans else 'false'}.",
+         "Definition gen_cfg : cfg := mkCfg sat_plan validate_mode after_validate path_mode add_if_absent byname_source "
+         "cleans_new_path_debris."]
     facts = [
         {"name": "sat_plan", "from": "base/readerwriter.py: _BaseDataFrameWriter.saveAsTable", "hash": sat_h, "text": sat},
         {"name": "validate_mode", "from": "base/readerwriter.py: _BaseDataFrameWriter._validate_mode", "hash": val_h, "text": val},
         {"name": "after_validate", "from": "duckdb/readwriter.py: DuckDBDataFrameWriter._write", "hash": aft_h, "text": aft},
+        {"name": "cleans_new_path_debris", "from": "duckdb/readwriter.py: DuckDBDataFrameWriter._write (try/except around COPY)", "hash": aft_h, "value": cleans},
         {"name": "path_mode", "from": "base/readerwriter.py: csv/json/parquet -> self._write(mode=...)", "hash": pm_h, "value": pm},
         {"name": "mode_setter_stores_argument", "from": "base/readerwriter.py: mode()/__init__", "value": True},
         {"name": "byname_source", "from": "base/readerwriter.py: insertInto (+ Insert container, executed)", "hash": ins_h, "value": byname},
